@@ -258,6 +258,20 @@ def valid_corpus(seed, n, n_multi):
 
 
 # ------------------------------------------------------------------------------------------------ mutants
+def _safe_ancestors(m, n):
+    """ancestors within this schema model (supertypes imported from another schema are ignored)"""
+    out, todo = set(), [n]
+    while todo:
+        x = todo.pop()
+        if not m.has_entity(x):
+            continue
+        for sup in m.entity(x).supers:
+            if sup not in out:
+                out.add(sup)
+                todo.append(sup)
+    return out
+
+
 class Mutant(object):
     def __init__(self, cls, variant, text, lexeme, line, decl_line=None, first_line=None, ctx=None, c04=True, lines_ok=None):
         self.cls, self.variant, self.text, self.lexeme = cls, variant, text, lexeme
@@ -626,7 +640,8 @@ class Injector(object):
         for s in g.schemas:
             for e in s.m.entities:
                 for x in s.m.entities:
-                    if x.name != e.name and e.name not in x.supers and x.name not in M.sexpr_leaves(e.sexpr):
+                    if x.name != e.name and e.name not in x.supers and x.name not in M.sexpr_leaves(e.sexpr) \
+                            and x.name not in _safe_ancestors(s.m, e.name):   # an ancestor named as subtype would ALSO be a subtype cycle: two faults
                         c.append((s, e, x))
         if not c:
             return None
